@@ -150,7 +150,7 @@ func ExploreScenario(t *testing.T, s *Scenario, o HOpts, c *Collector) {
 			if h.Ch.InPrefix() {
 				return
 			}
-			if o.Prune && seen && prev >= left {
+			if (o.Prune || s.Prune) && seen && prev >= left {
 				h.Ch.CutHere()
 				return
 			}
